@@ -261,6 +261,11 @@ static bool apply(World& w, const Op& op)
     }
   }
   w.hist += (w.hist.empty() ? "" : " ") + ops(op);
+  if ((n_trans % 20011) == 7) {
+    std::string l;
+    for (int x : m.order) l += std::to_string(x);
+    sample("{\"history\":\"" + w.hist + "\",\"model_status\":\"" + std::to_string(m.st[0]) + std::to_string(m.st[1]) + std::to_string(m.st[2]) + "\",\"model_live_list\":\"" + l + "\"}", 6);
+  }
   long long before = g_nviol;
   observe(w, w.hist);
   return g_nviol == before;
